@@ -18,7 +18,7 @@
              async with send_lock:
                  if write_bio.pending: await transport.send_all(write_bio.read())
              return result                                                                                   *)
-From EN Require Import Lib.Bytes Conc.TlsBase Gen.ParamsC08.
+From EN Require Import Lib.Bytes Conc.TlsBase.
 
 (* one answer of the SSL object: which method was called, with which size argument, how it ended and what it appended
    to the outgoing BIO *)
@@ -71,6 +71,19 @@ Definition set_deque (s : shared) (d : list bytes) := {| wbio := wbio s; deque :
 Definition set_send_lock (s : shared) (b : bool) := {| wbio := wbio s; deque := deque s; send_lock := b; recv_lock := recv_lock s; feeds := feeds s |}.
 Definition set_recv_lock (s : shared) (b : bool) := {| wbio := wbio s; deque := deque s; send_lock := send_lock s; recv_lock := b; feeds := feeds s |}.
 Definition set_feeds (s : shared) (n : nat) := {| wbio := wbio s; deque := deque s; send_lock := send_lock s; recv_lock := recv_lock s; feeds := n |}.
+
+(* Two facts about the code under test are regenerated from /repo's AST on every run (Gen/ParamsC08.v) and passed
+   to the model as a parameter; every theorem is proved for all their values:
+     f_recheck  : with meta/fixes/C08_lost_wakeup.diff the WANT_READ branch, once it holds the recv lock, re-checks whether
+                  another task fed the SSL object in the meantime;
+     f_skiplock : with meta/fixes/C08_send_lock_only_if_pending.diff the send lock is taken only when the outgoing BIO
+                  is not empty. *)
+Record flags := { f_recheck : bool; f_skiplock : bool }.
+
+Section Flags.
+Variable fl : flags.
+Notation recheck_after_recv_lock := (f_recheck fl).
+Notation send_lock_only_if_pending := (f_skiplock fl).
 
 (* where a task goes when it reaches a flush point.  Unpatched code always queues on the send lock (PFlush); with
    meta/fixes/C08_send_lock_only_if_pending.diff (regenerated flag send_lock_only_if_pending) it takes the lock only if
@@ -266,3 +279,5 @@ Fixpoint sys_run (y : sys) (ls : list slab) : sys * list (nat * act) :=
       | Some (y1, a1) => let '(y2, a2) := sys_run y1 ls' in (y2, a1 ++ a2)
       end
   end.
+
+End Flags.
